@@ -1560,6 +1560,200 @@ def roundtrip_stream(ctx, n):
     return found
 
 
+# ----------------------------------------------------------------------------------------------
+# identity-like ops on a leaf that also occurs bare (built directly)
+# ----------------------------------------------------------------------------------------------
+
+WRAPPERS = ["rename-1hop", "rename-2hop", "swap-twice", "cat-one-part", "slice-full", "index-arange",
+            "rename-1hop-partial"]
+
+
+def wrap_identity(kind, x, names, sizes):
+    """An op chain on leaf x that is the identity as a function (for several of them the eager value IS the
+    cons-hashed leaf object).  Must be called under reflect.  None if the kind does not apply."""
+    if kind == "rename-1hop":
+        return x(**{nm: nm + "_r" for nm in names})(**{nm + "_r": nm for nm in names})
+    if kind == "rename-1hop-partial":
+        return x(**{names[0]: names[0] + "_r"})(**{names[0] + "_r": names[0]})
+    if kind == "rename-2hop":
+        return x(**{nm: nm + "_r" for nm in names})(**{nm + "_r": nm + "_s" for nm in names})(
+            **{nm + "_s": nm for nm in names})
+    if kind == "swap-twice":
+        if len(names) < 2 or sizes[0] != sizes[1]:
+            return None
+        a_, b_ = names[0], names[1]
+        return x(**{a_: b_, b_: a_})(**{a_: b_, b_: a_})
+    if kind == "cat-one-part":
+        return Cat(names[0], (x,), names[0])
+    if kind == "slice-full":
+        return x(**{names[0]: Slice(names[0], 0, sizes[0], 1, sizes[0])})
+    if kind == "index-arange":
+        return x(**{names[0]: Tensor(np.arange(sizes[0]), OrderedDict([(names[0], Bint[sizes[0]])]), sizes[0])})
+    raise ValueError(kind)
+
+
+def run_identity(w):
+    """root = (+)_{axes,k} x^nbare (*) wrap(x) (*) y[axes,k]  ->  (status, got {x,y}, want {x,y}) in linear space"""
+    sr = w["sr"]
+    sum_op, prod_op = (ops.add, ops.mul) if sr == "add-mul" else (ops.logaddexp, ops.add)
+    names, sizes, nk = w["names"], w["sizes"], w["nk"]
+    xd = np.array(w["x"], dtype=np.float64)
+    yd = np.array(w["y"], dtype=np.float64)
+    xin = OrderedDict((nm, Bint[s_]) for nm, s_ in zip(names, sizes))
+    yin = OrderedDict(list(xin.items()) + [("kk", Bint[nk])])
+    x = Tensor(to_impl_data(xd, sr), xin)
+    y = Tensor(to_impl_data(yd, sr), yin)
+    with reflect:
+        wx = wrap_identity(w["wrapper"], x, names, sizes)
+        if wx is None:
+            return "n/a", None, None
+        factors = ([wx] + [x] * w["nbare"]) if w["wrap_first"] else ([x] * w["nbare"] + [wx])
+        e = factors[0]
+        for t in factors[1:]:
+            e = prod_op(e, t)
+        e = prod_op(e, y).reduce(sum_op)
+    with np.errstate(all="ignore"):
+        fwd, bwd = forward_backward(sum_op, prod_op, e)
+    m = w["nbare"] + 1                                   # occurrences of x in the product
+    ysum = yd.sum(-1)
+    want = {"x": m * xd ** (m - 1) * ysum, "y": np.broadcast_to((xd ** m)[..., None], yd.shape)}
+    got = {}
+    for lbl, leaf, ins in (("x", x, xin), ("y", y, yin)):
+        order = [((GNAMES.index(nm) if nm in GNAMES else 9), d.size) for nm, d in ins.items()]
+        g = bwd[leaf]
+        if isinstance(g, Tensor) and set(g.inputs) <= set(ins):
+            tab = futil.table(g, [(nm, d.size) for nm, d in ins.items()])
+        elif isinstance(g, Number):
+            tab = np.broadcast_to(np.asarray(g.data, dtype=np.float64), tuple(d.size for d in ins.values())).copy()
+        else:
+            return "inputs", {lbl: str(getattr(g, "inputs", g))}, want
+        got[lbl] = np.exp(tab) if sr != "add-mul" else tab
+    return "value", got, want
+
+
+IDENTITY_SNIPPET = """
+import sys
+sys.path.insert(0, "/verif")
+import numpy as np
+from fv.harness import c11
+w = {w!r}
+status, got, want = c11.run_identity(w)
+print(status, "adjoint of x:", None if got is None else got.get("x"), " derivative:", None if want is None else want["x"])
+FAILS = status != "value" or not all(np.allclose(got[k], want[k], rtol=1e-9) for k in ("x", "y"))
+"""
+
+
+def identity_stream(ctx, rounds):
+    """x (*) w(x) (*) y with every identity-like w, the leaf x also occurring bare 0-2 times, both
+    semirings; gate: whenever forward_backward returns, both adjoints are the derivatives."""
+    rng = ctx.rng
+    for _ in range(rounds):
+        for kind in WRAPPERS:
+            for sr in ("add-mul", "logaddexp-add"):
+                for nbare in (0, 1, 2):
+                    nax = rng.choice([1, 2])
+                    names = rng.sample(GNAMES, nax)
+                    n0 = rng.choice([2, 3])
+                    sizes = [n0] + [rng.choice([n0, n0, 2])] * (nax - 1)
+                    nk = rng.choice([1, 2])
+                    w = dict(wrapper=kind, sr=sr, nbare=nbare, names=names, sizes=sizes, nk=nk,
+                             wrap_first=rng.random() < 0.3,
+                             x=gen_data(rng, tuple(sizes), nonzero=True).tolist(),
+                             y=gen_data(rng, tuple(sizes) + (nk,), nonzero=True).tolist())
+                    try:
+                        status, got, want = run_identity(w)
+                    except (AssertionError, ValueError, NotImplementedError, KeyError, TypeError) as ex:
+                        ctx.count(f"identity:{kind}:declined:{type(ex).__name__}")
+                        continue
+                    if status == "n/a":
+                        continue
+                    ok = status == "value" and all(np.allclose(got[k], want[k], rtol=1e-9, atol=0) for k in ("x", "y"))
+                    ctx.count(f"identity:{kind}:bare{nbare}:" + ("ok" if ok else "wrong"))
+                    if ok:
+                        ctx.case(nontrivial_key=repr(sorted(w.items())))
+                    else:
+                        ctx.fail("input", "C11.identity-op-adjoint", witness=w,
+                                 expected=str({k: np.asarray(v).tolist() for k, v in want.items()}),
+                                 got=str(None if got is None else {k: np.asarray(v).tolist() if hasattr(v, "shape") else v
+                                                                    for k, v in got.items()}),
+                                 python=IDENTITY_SNIPPET.format(w=w))
+                        return
+
+
+# ----------------------------------------------------------------------------------------------
+# a forward Scatter node (built directly): the adjoint of its source
+# ----------------------------------------------------------------------------------------------
+
+SCATTER_SNIPPET = """
+import numpy as np
+from collections import OrderedDict
+import funsor, funsor.ops as ops
+from funsor.domains import Bint
+from funsor.tensor import Tensor
+from funsor.terms import Scatter, Variable
+from funsor.interpretations import reflect
+from funsor.adjoint import forward_backward
+funsor.set_backend("numpy")
+w = {found!r}
+log = w["sr"] != "add-mul"
+sum_op, prod_op = (ops.logaddexp, ops.add) if log else (ops.add, ops.mul)
+conv = (lambda a: np.log(np.array(a, dtype=float))) if log else (lambda a: np.array(a, dtype=float))
+nk, ni = len(w["src"]), len(w["w"])
+src = Tensor(conv(w["src"]), OrderedDict(a=Bint[nk]))
+idx = Tensor(np.array(w["idx"]), OrderedDict(a=Bint[nk]), ni)
+wt = Tensor(conv(w["w"]), OrderedDict(b=Bint[ni]))
+with reflect:
+    dest = Scatter(sum_op, (("b", idx),), src, frozenset({{Variable("a", Bint[nk])}}))
+    e = prod_op(dest, wt).reduce(sum_op, "b")
+fwd, bwd = forward_backward(sum_op, prod_op, e)
+g = bwd[src]
+got = np.exp(g.data) if log else np.asarray(g.data)
+print("adjoint of the Scatter's source:", got, " expected w[idx]:", w["derivative"])
+FAILS = not (np.shape(got) == (nk,) and np.allclose(got, w["derivative"]))
+"""
+
+
+def scatter_stream(ctx, n):
+    from funsor.terms import Scatter
+    rng = ctx.rng
+    found = None
+    for _ in range(n):
+        sr = rng.choice(["add-mul", "logaddexp-add"])
+        sum_op, prod_op = (ops.add, ops.mul) if sr == "add-mul" else (ops.logaddexp, ops.add)
+        nk = rng.choice([1, 2, 3])
+        ni = rng.choice([s_ for s_ in (2, 3, 4) if s_ >= nk])
+        perm = rng.sample(range(ni), nk)
+        sd = gen_data(rng, (nk,), nonzero=True)
+        wd = gen_data(rng, (ni,), nonzero=True)
+        src = Tensor(to_impl_data(sd, sr), OrderedDict(a=Bint[nk]))
+        idx = Tensor(np.array(perm), OrderedDict(a=Bint[nk]), ni)
+        wt = Tensor(to_impl_data(wd, sr), OrderedDict(b=Bint[ni]))
+        try:
+            with reflect:
+                dest = Scatter(sum_op, (("b", idx),), src, frozenset({Variable("a", Bint[nk])}))
+                e = prod_op(dest, wt).reduce(sum_op, "b")
+            with np.errstate(all="ignore"):
+                fwd, bwd = forward_backward(sum_op, prod_op, e)
+            g = bwd[src]
+            t = lin_table(g, [(0, nk)], sr)
+        except (AssertionError, ValueError, NotImplementedError, KeyError, TypeError) as ex:
+            ctx.count(f"scatter-source:declined:{type(ex).__name__}")
+            continue
+        want = wd[perm]
+        good = t is not None and set(getattr(g, "inputs", ())) == {"a"} and np.allclose(t, want, rtol=1e-9)
+        ctx.count("scatter-source:" + ("ok" if good else "wrong"))
+        if good:
+            ctx.case(nontrivial_key=("scatter-source", sr, tuple(perm), sd.tobytes(), wd.tobytes()) if nk > 1 else None)
+        if not good and found is None:
+            found = dict(sr=sr, src=sd.tolist(), idx=perm, w=wd.tolist(), derivative=want.tolist(),
+                         funsor=str(g)[:120])
+    # part of the clean stream since /repo 63a064e (adjoint_scatter no longer reduces the source's inputs)
+    if found is not None:
+        ctx.fail("input", "C11.scatter-source-adjoint", witness=found, expected=str(found["derivative"]),
+                 got=found["funsor"], python=SCATTER_SNIPPET.format(found=found))
+
+
+
 def nested_cases(rng):
     """Nested reductions that reuse the same variable name at 2-3 levels (an inner binder named like an
     outer one that is still free in between), in both semirings, plain and through apply_optimizer — the
@@ -1659,6 +1853,8 @@ def correspond(ctx):
     for stream in FINDINGS:
         dedicated(ctx, stream, m)
     roundtrip_stream(ctx, m)
+    identity_stream(ctx, 1 if ctx.tier == "quick" else 6)
+    scatter_stream(ctx, 20 if ctx.tier == "quick" else 100)
     ctx.assumptions.append("float64 arithmetic on small integers / dyadic rationals is exact; the log semiring, and (add,mul) terms containing a product-reduce (safediv = multiplication by a rounded reciprocal), are compared in linear space with rtol 1e-9; magnitudes beyond 2**50 with rtol 1e-12")
     ctx.assumptions.append("with apply_optimizer the leaves are the tensors of the optimizer's output (its unfold pass evaluates Subs(Tensor) eagerly, outside the tape); the output is re-read into the model's syntax modulo __BOUND suffixes exactly as AdjointTape.adjoint un-mangles names")
     ctx.assumptions.append("dag_adjoint_sound: the sweep over the DAG tape (argument indices, shared nodes accumulate before they are popped) returns the derivative of the unfolded root; the driver's DAG is the hash-consing of the term (structurally equal sub-terms = one node); tie to the real tape: number/kind of recorded entries and pop order (counted), and the adjoint accumulated at every node when popped = funsor's adjoint of that lazy node (gated, incl. shared nodes); un-mangling and the eager-value keys of the real tape are exercised by correspondence only")
@@ -1680,7 +1876,7 @@ def search(ctx, broken):
 
 def replay(ctx, doc):
     w = doc.get("witness") or {}
-    if "renamed" in w and doc.get("python"):      # round-trip stream: built directly, replayed by its snippet
+    if ("renamed" in w or "idx" in w or "wrapper" in w) and doc.get("python"):   # streams built directly: replayed by their snippet
         g = {}
         try:
             exec(doc["python"], g)
